@@ -16,6 +16,7 @@
 import six
 
 from kmip.core import enums
+from kmip.core import exceptions
 from kmip.core.enums import Tags
 
 from kmip.core.messages import contents
@@ -449,6 +450,11 @@ class ResponseBatchItem(Struct):
                 kmip_version=kmip_version
             )
         if self.response_payload is not None:
+            if self.operation is None:
+                raise exceptions.InvalidField(
+                    "The response batch item has a response payload but no "
+                    "operation; the payload could not be decoded."
+                )
             self.response_payload.write(tstream, kmip_version=kmip_version)
         if self.message_extension is not None:
             self.message_extension.write(tstream, kmip_version=kmip_version)
